@@ -3,6 +3,8 @@ import Firebolt.Properties.ExecFlow
 import Firebolt.Model.Startup
 import Firebolt.Generated.Source
 import Firebolt.Expected.Source
+import Firebolt.Generated.Closure
+import Firebolt.Expected.Closure
 /-!
 # C05 — Per-node concurrency bound, setup-before-use, and race-free framework state
 -/
@@ -138,5 +140,9 @@ theorem started_are_set_up (roots : List FNode) : (startL roots).map (·.1) = se
 
 
 end
+
+/-! ### influence closure: the pinned functions, and every function of the repository that writes a struct field or package
+variable they read, are unchanged (digests regenerated from /repo on every run; a difference names the functions) -/
+theorem closure_unchanged : GeneratedClo.C05 = ExpectedClo.C05 := by rfl
 
 end Firebolt.C05
